@@ -119,7 +119,7 @@ func (m *joinMon) segLenAt(pos int) int {
 func (m *joinMon) OnEvent(w *vrt.World, ev *vrt.Event) {
 	switch {
 	case ev.Kind == vrt.EvClock:
-		if want(m.cfg, "C10") && m.cfg.Mode == "flush" && m.T > 0 {
+		if want(m.cfg, "C10") && (m.cfg.Mode == "flush" || m.cfg.Mode == "thief") && m.T > 0 {
 			m.checkFlush(w)
 		}
 		if m.outstanding {
@@ -264,6 +264,7 @@ type joinAdapter struct {
 	stop    func()
 	send    func(seg []int)
 	closeIn func()
+	steal   func() bool // another reader of the same input channel takes one value; false when closed
 }
 
 const msUnit = int64(10 * time.Millisecond)
@@ -352,7 +353,7 @@ func newJoin(c Cfg, w *vrt.World) *explore.Instance {
 				newErr = err
 				return
 			}
-			ad = joinAdapter{out: d.Output(), release: d.Release, send: func(seg []int) { vrt.Send(in, seg[0]) }, closeIn: func() { vrt.Close(in) }}
+			ad = joinAdapter{out: d.Output(), release: d.Release, send: func(seg []int) { vrt.Send(in, seg[0]) }, closeIn: func() { vrt.Close(in) }, steal: func() bool { _, ok := vrt.Recv2(in); return ok }}
 		case "unite2":
 			in := vrt.MakeChan[[]int](capIn)
 			m.in = vrt.NameChan[[]int](in, "in")
@@ -361,7 +362,7 @@ func newJoin(c Cfg, w *vrt.World) *explore.Instance {
 				newErr = err
 				return
 			}
-			ad = joinAdapter{out: d.Output(), release: d.Release, send: func(seg []int) { vrt.Send(in, seg) }, closeIn: func() { vrt.Close(in) }}
+			ad = joinAdapter{out: d.Output(), release: d.Release, send: func(seg []int) { vrt.Send(in, seg) }, closeIn: func() { vrt.Close(in) }, steal: func() bool { _, ok := vrt.Recv2(in); return ok }}
 		case "join1":
 			in := vrt.MakeChan[int](capIn)
 			m.in = vrt.NameChan[int](in, "in")
@@ -379,7 +380,7 @@ func newJoin(c Cfg, w *vrt.World) *explore.Instance {
 				newErr = err
 				return
 			}
-			ad = joinAdapter{out: d.Output(), release: func() { vrt.Send(released, struct{}{}) }, stop: d.Stop, send: func(seg []int) { vrt.Send(in, seg[0]) }, closeIn: func() { vrt.Close(in) }}
+			ad = joinAdapter{out: d.Output(), release: func() { vrt.Send(released, struct{}{}) }, stop: d.Stop, send: func(seg []int) { vrt.Send(in, seg[0]) }, closeIn: func() { vrt.Close(in) }, steal: func() bool { _, ok := vrt.Recv2(in); return ok }}
 		default:
 			panic("unknown join discipline " + c.Disc)
 		}
@@ -438,6 +439,9 @@ func newJoin(c Cfg, w *vrt.World) *explore.Instance {
 					// input slices are sub-slices of two larger arrays, taken alternately:
 					// the spare capacity of one input slice holds later, still pending input
 					seg = inter[nseg%2][(nseg/2)*l : (nseg/2)*l+l]
+				case c.Mode == "sparecap":
+					// input slices (empty ones too) with spare capacity beyond JoinSize
+					seg = make([]int, l, l+c.J+1)
 				case l == 0 && zeros%2 == 1:
 					seg = nil // a nil slice is a legal empty input slice too
 				default:
@@ -460,6 +464,21 @@ func newJoin(c Cfg, w *vrt.World) *explore.Instance {
 			producerDone = true
 		})
 
+		if c.Mode == "thief" || c.Retain != nil && false {
+			// sharing a channel between several readers is legal Go: a second reader
+			// takes up to two values from the input at arbitrary moments
+			vrt.Spawn("thief", func() {
+				for k := 0; k < 2; k++ {
+					vrt.Mark(uint64(k) + 0x7e)
+					if vrt.Choose(2) == 1 {
+						return
+					}
+					if !ad.steal() {
+						return
+					}
+				}
+			})
+		}
 		// consumer
 		vrt.Spawn("consumer", func() {
 			for {
